@@ -205,7 +205,7 @@ class EKFIMU(Kind):
         if mr == 'dip':
             kw['magnetic_ref'] = float(dip)
         elif mr == 'vector':
-            kw['magnetic_ref'] = np.array(self.refs(p, dip)[1], dtype=float)
+            kw['magnetic_ref'] = np.array(self.refs(p, dip)[1], dtype=float) * float(p.get('mref_scale', 1.0))   # e.g. the local field in uT
         # mr == 'default' -> WMM for "today" (calendar-dependent; C06 freezes the calendar)
         if 'noises' in p:
             kw['noises'] = list(p['noises'])
@@ -341,7 +341,7 @@ class ROLEQk(Kind):
         if mr == 'dip':
             kw['magnetic_ref'] = float(dip)
         elif mr == 'vector':
-            kw['magnetic_ref'] = np.array(self.refs(p, dip)[1], dtype=float)
+            kw['magnetic_ref'] = np.array(self.refs(p, dip)[1], dtype=float) * float(p.get('mref_scale', 1.0))   # e.g. the local field in uT
         if p.get('weights') is not None:
             kw['weights'] = _arr(p, 'weights')
         if _q0(p) is not None:
@@ -455,7 +455,7 @@ class OLEQk(SingleFrame):
         if mr == 'dip':
             kw['magnetic_ref'] = float(dip)
         elif mr == 'vector':
-            kw['magnetic_ref'] = np.array(self.refs(p, dip)[1], dtype=float)
+            kw['magnetic_ref'] = np.array(self.refs(p, dip)[1], dtype=float) * float(p.get('mref_scale', 1.0))   # e.g. the local field in uT
         if p.get('weights') is not None:
             kw['weights'] = _arr(p, 'weights')
         return kw
@@ -603,6 +603,8 @@ def gen_params(rnd, kind, *, with_q0=True, defaults_prob=0.3):
     elif kind.startswith('ekf'):
         p['frame'] = rnd.choice(['NED', 'ENU'])
         p['magnetic_ref'] = rnd.choice(['dip', 'dip', 'vector'])
+        if p['magnetic_ref'] == 'vector' and rnd.random() < 0.5:
+            p['mref_scale'] = rnd.choice([48.0, 0.3, 5e4])
         if not default:
             p['noises'] = [10 ** rnd.uniform(-3, 0), 10 ** rnd.uniform(-3, 0), 10 ** rnd.uniform(-3, 0)]
         if rnd.random() < 0.4:
